@@ -50,7 +50,8 @@ def stateless_case(draw, ctx):
         case["which"] = draw(st.sampled_from(["x", "y"]))
         case["as_list"] = draw(st.booleans())
     elif kind == "from_2d_shape":
-        case["shape"] = draw(st.sampled_from(["(N,)", "(N,3)", "(N,1)", "(N,2,2)", "(2,N)"]))
+        case["shape"] = draw(st.sampled_from(["(N,)", "(N,3)", "(N,1)", "(N,2,2)", "(2,N)", "(2,)", "(4,)", "()", "(1,)",
+                                              "(1,2,1)", "(2,1)"]))
     elif kind in ("integral_name", "search_name", "interpolate_name"):
         case["name"] = draw(st.sampled_from(["bogus", "", "Trapezoid", "rect", "LOWER", "nearest", "quadratic", "simpson"]))
     elif kind == "dataset_name":
@@ -88,7 +89,9 @@ def stateless_body(ctx, case):
     elif k == "from_2d_shape":
         n = len(x)
         arr = {"(N,)": x, "(N,3)": np.column_stack([x, y, y]), "(N,1)": x.reshape(n, 1),
-               "(N,2,2)": np.zeros((n, 2, 2)), "(2,N)": np.vstack([x, y])}[case["shape"]]
+               "(N,2,2)": np.zeros((n, 2, 2)), "(2,N)": np.vstack([x, y]), "(2,)": x[:2].copy(), "(4,)": np.append(x[:2], y[:2]),
+               "()": np.array(x[0]), "(1,)": x[:1].copy(), "(1,2,1)": x[:2].reshape(1, 2, 1),
+               "(2,1)": x[:2].reshape(2, 1)}[case["shape"]]
         if arr.ndim == 2 and arr.shape[1] == 2:
             ctx.count("shape-happens-to-be-valid")
             return
